@@ -206,7 +206,7 @@ func init() {
 	core.Register(&core.Prop{
 		ID:    "C07",
 		Level: "exploration",
-		Rule:  "every delimiter configuration (segment in {~, LF, ||, é} x element in {*, <>} x component in {none, :} x repetition in {none, ^} x release in {none, ?, \\, é} x ignore_crlf) x every pair (triple in thorough) of values of up to 2 (3) symbols over {x, é, every rune of every delimiter in use, the release character, empty, CR} placed in every structural arrangement (two elements, two components, two repetitions, value + trailing empty elements), encoded by a reference escaper (release char makes the next rune literal), terminated with/without CR LF, read with scanner buffers 4, 8 and 128 and as padded segments of 120-135 and 250-260 bytes; element declarations with index/component_index, default, empty_if_missing, neither (fatal), and the same (index, component) declared twice; the element values of the node tree must equal the logical values; distinct by (configuration, input, declarations)",
+		Rule:  "every delimiter configuration (segment in {~, LF, ||, é} x element in {*, <>} x component in {none, :} x repetition in {none, ^} x release in {none, ?, \\, é} x ignore_crlf) x every pair (triple in thorough) of values of up to 2 (3) symbols over {x, é, every rune of every delimiter in use, the release character, empty, CR} placed in every structural arrangement (two elements, two components, two repetitions, value + trailing empty elements), encoded by a reference escaper (release char makes the next rune literal), terminated with/without CR LF, read with scanner buffers 4, 8 and 128 and as padded segments of 120-135 and 250-260 bytes; segments of up to 40 elements / 12 components / 12 repetitions; element declarations with index/component_index, default (also defaults containing delimiter and release characters), empty_if_missing, neither (fatal), and the same (index, component) declared twice; the element values of the node tree must equal the logical values; distinct by (configuration, input, declarations)",
 		Assumptions: []string{
 			"the release character is a single rune (the property speaks of a release character); multi-rune release strings are outside the alphabet",
 			"with LF as segment delimiter one CR before the LF belongs to the terminator; with ignore_crlf every CR/LF byte is dropped before tokenising - the reference codec applies these two rules to the expected values",
@@ -452,6 +452,65 @@ func c07Run(c *core.Ctx) {
 				Decls: []c07Decl{{Name: "a", Index: 1}, {Name: "b", Index: 1, Comp: 1}},
 				Want:  [][]string{{"a=" + na, "b=" + na}, {"a=" + na, "b=" + na}}}, fmt.Sprintf("%d|twice", ci)) {
 				return
+			}
+		}
+		// wide segments: many elements, many components, many repetitions (more than any initial capacity)
+		if !cfg.IgnoreCRLF && cfg.Seg != "\n" {
+			for _, n := range []int{1, 2, 4, 5, 8, 9, 31, 32, 33, 40} {
+				cfgb := cfg
+				cfgb.BufSize = 128
+				// n elements, each "e<i>"; declared: the first, the last, one in the middle
+				seg := ediSegment{{{"S"}}}
+				for i := 1; i <= n; i++ {
+					seg = append(seg, [][]string{{fmt.Sprintf("e%d", i)}})
+				}
+				mid := (n + 1) / 2
+				if !try(c07Case{Cfg: cfgb, Input: []byte(cfg.encode(seg, cfg.Seg)), Family: "wide-segment|elements",
+					Decls: []c07Decl{{Name: "first", Index: 1}, {Name: "mid", Index: mid}, {Name: "last", Index: n}},
+					Want:  [][]string{{"first=e1", fmt.Sprintf("mid=e%d", mid), fmt.Sprintf("last=e%d", n)}}}, fmt.Sprintf("%d|wide-e", ci)) {
+					return
+				}
+				if cfg.Comp != "" && n <= 12 {
+					var comps []string
+					for i := 1; i <= n; i++ {
+						comps = append(comps, fmt.Sprintf("c%d", i))
+					}
+					segc := ediSegment{{{"S"}}, {comps}, {{"z"}}}
+					if !try(c07Case{Cfg: cfgb, Input: []byte(cfg.encode(segc, cfg.Seg)), Family: "wide-segment|components",
+						Decls: []c07Decl{{Name: "first", Index: 1, Comp: 1}, {Name: "last", Index: 1, Comp: n}, {Name: "z", Index: 2}},
+						Want:  [][]string{{"first=c1", fmt.Sprintf("last=c%d", n), "z=z"}}}, fmt.Sprintf("%d|wide-c", ci)) {
+						return
+					}
+				}
+				if cfg.Rep != "" && n <= 12 {
+					var reps [][]string
+					var want []string
+					for i := 1; i <= n; i++ {
+						reps = append(reps, []string{fmt.Sprintf("r%d", i)})
+						want = append(want, fmt.Sprintf("r=r%d", i))
+					}
+					segr := ediSegment{{{"S"}}, reps, {{"z"}}}
+					if !try(c07Case{Cfg: cfgb, Input: []byte(cfg.encode(segr, cfg.Seg)), Family: "wide-segment|repetitions",
+						Decls: []c07Decl{{Name: "r", Index: 1}, {Name: "z", Index: 2}},
+						Want:  [][]string{append(want, "z=z")}}, fmt.Sprintf("%d|wide-r", ci)) {
+						return
+					}
+				}
+			}
+			// a default that itself contains delimiter / release characters is handed over as written
+			for _, d := range []string{"d" + cfg.Rel + "x", cfg.Rel, "a" + cfg.Rel + cfg.Rel + "c", "x" + cfg.Elem + "y", cfg.Seg, "p" + cfg.Comp + cfg.Rep + "q"} {
+				if d == "" {
+					continue
+				}
+				d := d
+				cfgb := cfg
+				cfgb.BufSize = 128
+				in := cfg.encode(ediSegment{{{"S"}}, {{"v"}}}, cfg.Seg)
+				if !try(c07Case{Cfg: cfgb, Input: []byte(in), Family: "missing-with-default|special-characters-in-the-default",
+					Decls: []c07Decl{{Name: "e1", Index: 1}, {Name: "e2", Index: 2, Default: &d}, {Name: "e3", Index: 3, Comp: 2, Default: &d}},
+					Want:  [][]string{{"e1=v", "e2=" + d, "e3=" + d}}}, fmt.Sprintf("%d|default-special", ci)) {
+					return
+				}
 			}
 		}
 		// bytes that are not valid UTF-8, and U+FFFD itself, in values and at the very start of a segment
